@@ -16,6 +16,7 @@ import inspect
 import itertools
 import json
 import keyword
+import multiprocessing
 import os
 import time
 
@@ -522,6 +523,23 @@ def nonstr_calls(sig, maxlen):
                 yield concretise(sig, syms)
 
 
+def structured_calls(sig):
+    """Mostly valid, longer calls: k positional arguments (0 .. all positional parameters + 2), then keywords for every subset of
+    the parameters that can still be given by keyword, then optionally an unknown key (or the name of *args / **kwargs / self)."""
+    pos = sig["po"] + sig["pk"]
+    for k in range(len(pos) + 3):
+        rest = [n for n, _ in sig["pk"][max(0, k - len(sig["po"])):]] + [n for n, _ in sig["ko"]]
+        for mask in range(2 ** len(rest)):
+            kws = [n for j, n in enumerate(rest) if (mask >> j) & 1]
+            extras = [(), ("u",)]
+            if mask == 0:                # the names of *args / **kwargs themselves, and of self, used as keys
+                extras += [(x,) for x in (sig["va"], sig["vk"], sig["names"][0]) if x]
+            for extra in extras:
+                call = [["pos", 11 + i] for i in range(k)] + [["kw", n, 31 + i] for i, n in enumerate(kws + list(extra))]
+                if len(call) > 2:        # the shorter ones are in the exhaustive part
+                    yield call
+
+
 def random_call(rng, sig, maxlen=5, nonstr=True):
     al = alphabet(sig, rich=True, nonstr=nonstr)
     w = [6 if s[0] == "pos" else 3 if (s[0] == "kw" and s[1] in param_names(sig)) else 1 for s in al]
@@ -550,29 +568,44 @@ def load_corpus():
     return cases
 
 
-def run_case(chk, probe, sig, call, kind, terms, meta, pyfn, pyout):
-    py = run_python(pyfn, pyout, sig, call)
-    tag, src = probe.run(call)
+def exec_job(job):
+    """(worker process) one probe tag for one signature: every call through the REAL tag and through the REAL Python call."""
+    sig, calls, kind, idx = job
+    probe = Probe(sig, Probe.VARIANTS[idx % 3])
+    pyout, out = [], []
+    pyfn = make_fn(sig, pyout)
+    try:
+        for call in calls:
+            py = run_python(pyfn, pyout, sig, call)
+            tag, src = probe.run(call)
+            out.append((py, tag, src))
+    finally:
+        probe.close()
+    return probe.variant, probe.use_code, out
+
+
+def account(chk, sig, call, kind, variant, use_code, py, tag, src, terms, meta):
+    """(parent) direct oracle, counting, and the case as a Coq term."""
     why = oracle(sig, call, py, tag)
     nt = nontrivial(sig, call, py)
     chk.count((sig_src(sig), tuple(map(repr, call))), nt, kind=kind,
               sample={"render": sig_src(sig).split("\n")[0], "tag": src, "python": py, "tag_result": tag} if (nt and kind.startswith("random") and py[0] == "ok") else None)
     if why:
-        chk.fail(classify(sig, call), why, {"kind": "tag", "sig": sig, "call": call, "template": src, "variant": probe.variant,
+        chk.fail(classify(sig, call), why, {"kind": "tag", "sig": sig, "call": call, "template": src, "variant": variant,
                                             "render": sig_src(sig).split("\n")[0], "python": py, "tag": tag})
-    terms.append("Cs %s %s %s %s %s" % (C.cbool(probe.use_code), LIT.sig(sig), LIT.call(call), LIT.obs(py), LIT.obs(tag)))
-    meta.append((sig, call, py, tag, src + " [render() built as: %s]" % probe.variant))
+    terms.append("Cs %s %s %s %s %s" % (C.cbool(use_code), LIT.sig(sig), LIT.call(call), LIT.obs(py), LIT.obs(tag)))
+    meta.append((sig, call, py, tag, src + " [render() built as: %s]" % variant))
 
 
-def run_sig(chk, sig, calls, kind, terms, meta, idx):
-    probe = Probe(sig, Probe.VARIANTS[idx % 3])
-    pyout = []
-    pyfn = make_fn(sig, pyout)
-    try:
-        for call in calls:
-            run_case(chk, probe, sig, call, kind, terms, meta, pyfn, pyout)
-    finally:
-        probe.close()
+def run_jobs(chk, jobs, terms, meta):
+    """jobs: [(sig, [call..], kind, idx)] - executed by a pool of forked workers, accounted in order (deterministic)."""
+    ctx = multiprocessing.get_context("fork")
+    with ctx.Pool(max(1, min(C.NCPU, 16))) as pool:
+        for (sig, calls, kind, idx), (variant, use_code, res) in zip(jobs, pool.imap(exec_job, jobs, chunksize=4)):
+            if len(res) != len(calls):
+                raise C.HarnessError("worker returned %d results for %d calls" % (len(res), len(calls)))
+            for call, (py, tag, src) in zip(calls, res):
+                account(chk, sig, call, kind, variant, use_code, py, tag, src, terms, meta)
 
 
 # ----------------------------------------------------------------------------------------------
@@ -649,12 +682,13 @@ def run(tier, seed):
     def lap(name):
         phases[name] = round(time.time() - t_last[0], 1)
         t_last[0] = time.time()
-    lap("prove")
+    phases["prove"] = (chk.proof or {}).get("wall_s")
 
     # ---- 0. corpus: witnesses of fixed / reported defects, direct oracle first ----
+    jobs = []
     for i, c in enumerate(load_corpus()):
         for v in range(3):      # BaseNode subclass, @template_tag, callable object (fallback path)
-            run_sig(chk, c["sig"], [c["call"]], "corpus", terms, meta, v)
+            jobs.append((c["sig"], [c["call"]], "corpus", v))
 
     # ---- 1. exhaustive: every signature shape x every argument sequence (shortest first) ----
     plan = [(0, 4), (1, 4 if thorough else 3), (2, 3 if thorough else 2), (3, 3 if thorough else 2), (4, 2 if thorough else 1)]
@@ -666,19 +700,28 @@ def run(tier, seed):
             idx += 1
             if idx % 5 == 0:
                 sig = dict(sig, names=["node", "context"])
-            run_sig(chk, sig, exhaustive_calls(sig, maxlen), "exh-n%d-len<=%d" % (n, maxlen), terms, meta, idx)
+            jobs.append((sig, list(exhaustive_calls(sig, maxlen)), "exh-n%d-len<=%d" % (n, maxlen), idx))
 
     # ---- 1b. spread mappings with a key that is not a str (None / a tuple): all shapes n<=2 x sequences<=2 around them ----
     for n in (0, 1, 2):
         for sig in all_sigs(n):
             idx += 1
-            run_sig(chk, sig, nonstr_calls(sig, 2), "exh-nonstr-key-n%d-len<=2" % n, terms, meta, idx)
+            jobs.append((sig, list(nonstr_calls(sig, 2)), "exh-nonstr-key-n%d-len<=2" % n, idx))
+
+    # ---- 1c. structured, mostly valid longer calls on every shape n<=3 (n<=4 thorough), fast path and fallback ----
+    for n in range(1, 5 if thorough else 4):
+        for sig in all_sigs(n):
+            calls = list(structured_calls(sig))
+            for v in (0, 2):        # BaseNode subclass (fast path), callable object (fallback)
+                jobs.append((sig, calls, "structured-n%d" % n, v))
 
     # ---- 2. random: up to 5 parameters, up to 5 arguments, richer key alphabet ----
     for _ in range(6000 if thorough else 700):
         sig = random_sig(rng, 5)
         idx += 1
-        run_sig(chk, sig, [random_call(rng, sig, 5) for _ in range(12)], "random", terms, meta, idx)
+        jobs.append((sig, [random_call(rng, sig, 5) for _ in range(12)], "random", idx))
+    lap("generate")
+    run_jobs(chk, jobs, terms, meta)
 
     lap("run-tags+python")
     bad = C.coq_eval_cases("C11", "both", IMPORTS, "both_case", CHECK_BOTH, terms, shard=4000, extra_defs=LIT.header())
